@@ -224,6 +224,31 @@ def native_harness(tier, seed):
                         if not np.allclose(np.asarray(m)[:, 1], np.asarray(x).reshape(-1), atol=1e-9, equal_nan=True):
                             fails.append('%s: window 1 differs from %s on that window' % (fw.__name__, plain.__name__))
                             break
+        # multichannel images with a hard-panned estimate (one channel of one source exactly zero): a source is silent only when ALL its
+        # channels are; the input is valid, scores are finite, and every window equals the non-framewise result on that window
+        Tm = 1400
+        refm = rs.randn(2, Tm, 2)
+        estm = refm + 0.1 * rs.randn(2, Tm, 2)
+        estm[0, :, 1] = 0.0
+        refm2 = refm.copy()
+        refm2[1, Tm // 2:, 0] = 0.0
+        for rr_, ee_, what in ((refm, estm, 'estimate'), (refm2, estm, 'reference window')):
+            n += 1
+            try:
+                S.validate(rr_, ee_)
+                full = S.bss_eval_images(rr_, ee_)
+                if not all(np.isfinite(np.asarray(x_)).all() for x_ in full[:4]):
+                    fails.append('bss_eval_images is not finite for a hard-panned %s (no source is silent): %s' % (what, [np.asarray(x_).tolist() for x_ in full[:4]]))
+                outm = S.bss_eval_images_framewise(rr_, ee_, window=Tm // 2, hop=Tm // 2)
+                for w_ in (0, 1):
+                    pw = S.bss_eval_images(rr_[:, w_ * (Tm // 2):(w_ + 1) * (Tm // 2)], ee_[:, w_ * (Tm // 2):(w_ + 1) * (Tm // 2)])
+                    for m, x in zip(outm, pw):
+                        if not np.allclose(np.asarray(m)[:, w_], np.asarray(x).reshape(-1), atol=1e-9, equal_nan=False):
+                            fails.append('bss_eval_images_framewise: window %d differs from bss_eval_images on that window for a hard-panned %s: %s vs %s'
+                                         % (w_, what, np.asarray(m)[:, w_].tolist(), np.asarray(x).reshape(-1).tolist()))
+                            break
+            except Exception as ex:
+                fails.append('hard-panned %s (valid multichannel input) raised %s: %s' % (what, type(ex).__name__, str(ex)[:100]))
         # integer-typed (PCM) input: same scores as the same values given as floats, components still sum to the estimate
         Ti = 1300
         refi = (rs.randn(2, Ti) * 3000).astype(np.int16)
